@@ -614,3 +614,34 @@ func LoopBlocks(b *ssa.BasicBlock) map[*ssa.BasicBlock]bool {
 	}
 	return out
 }
+
+// ReturnValues resolves the results of a Return. Functions with defer spill their
+// results into local cells ("*t0 = v; rundefers; t1 = *t0; return t1"): for those the
+// value stored into the cell earlier in the same block is returned instead of the load.
+func ReturnValues(ret *ssa.Return) []ssa.Value {
+	out := make([]ssa.Value, len(ret.Results))
+	for i, v := range ret.Results {
+		out[i] = v
+		u, ok := v.(*ssa.UnOp)
+		if !ok || u.Op != token.MUL {
+			continue
+		}
+		a, ok := u.X.(*ssa.Alloc)
+		if !ok {
+			continue
+		}
+		var last ssa.Value
+		for _, in := range ret.Block().Instrs {
+			if in == ssa.Instruction(u) {
+				break
+			}
+			if st, ok := in.(*ssa.Store); ok && st.Addr == ssa.Value(a) {
+				last = st.Val
+			}
+		}
+		if last != nil {
+			out[i] = last
+		}
+	}
+	return out
+}
